@@ -6,7 +6,12 @@
 
    Go strings are byte sequences: every string field is a [bytes] value.  The two digests and the
    secp256k1 primitives are Section variables; Harness.v instantiates the digests with executable
-   SHA-256 / Keccak-256 and the curve primitives with a table of what libsecp256k1 answered. *)
+   SHA-256 / Keccak-256 and the curve primitives with a table of what libsecp256k1 answered.
+
+   Not modelled (never reached from the wire formats): a nil transaction (ErrNil / nil dereference),
+   recoverPlain's "invalid public key" branch (libsecp256k1 returns 65 bytes starting with 04 or an error),
+   BytesToPublicKey's panic on an off-curve key, Sign values above 2^256 built through Sign.Set, the
+   sender cache of eth_tx.Sender (a fresh eth_tx.Transaction is decoded on every call). *)
 From Coq Require Import List NArith ZArith Bool String Ascii Lia.
 From V.Base Require Import Hex BigEndian.
 From V.C08 Require Import Model Typed.
